@@ -42,6 +42,11 @@ func RecursiveGetExecutablePaths(dir string, excludedDirs ...string) ([]string, 
 		}
 
 		if f.IsDir() {
+			// The initial directory itself is never skipped, whatever its name is.
+			if path == dir {
+				return nil
+			}
+
 			// Skip hidden and lib directories inside initial directory
 			if strings.HasPrefix(f.Name(), ".") || slices.Contains(excludedDirs, f.Name()) {
 				return filepath.SkipDir
